@@ -385,6 +385,11 @@ def trace_line(job):
     mp = re.search(r"^POLY .* prec=(-?\d+)", out, re.M)
     if not me or not mp: return None
     classic = job["row"]["a"] == "u"
+    if not classic and int(mp.group(1)) > 0 and not re.search(r"^POLY type=(mps_monomial_poly|mps_secular_equation) ", out, re.M):
+        # a polynomial type without Newton correction and an input precision: mps_validate_inclusions cannot work on it (NULL call at
+        # HEAD, known finding; a warning and no switch to the MP phase with fixes/C03_validate_inclusions_needs_newton.patch).  The
+        # first secular skeleton (SkelDefs.sstep, shared with C18) has no such case; the extended one (check_x) models the repaired code.
+        return None
     toks = []
     if classic:
         m = {"uphase-f": "Pf", "uphase-d": "Pd", "uphase-m": "Pm", "pack": "K", "uovermax": "NC", "uinputprec": "NC"}
